@@ -121,3 +121,20 @@ Theorem C03_request_body_chunking : forall cb g r (body : bytes) (cuts1 : list (
   c03_obs cb g (OpOpen :: map OpReqData chunks1) = c03_obs cb g (OpOpen :: map OpReqData chunks2).
 Proof. rewrite c03_obs_is_sg_obs. exact sg_request_body_chunking_obs. Qed.
 Print Assumptions C03_request_body_chunking.
+
+(* ---- the RESPONSE direction: after a grammar request, a grammar response (status line without CR/LF in the reason phrase, header fields in any
+        folding `cuts`, a Content-Length body that may be empty) delivered in ANY chunking reports the same transactions as the single-chunk delivery.
+        Premises, all executable: sr_framed (the model's own framing decision: Content-Length = |body|, no Transfer-Encoding, not an answer to HEAD /
+        CONNECT, not an interim 100), sr_fits (the limit, pairwise with the pending header line, plus one byte for the last header line), and sr_f1_free,
+        which excludes EXACTLY the chunkings on which the listed LF-CR finding F1 changes the parse (it only bites when the body starts with CR).
+        The bare-CR finding F2 is excluded by sr_response_ok; the fold-with-colon finding K2 needs no premise (a folding, not a chunking, dependence). ---- *)
+Require Import Htp.Proof.PSegRes Htp.Proof.PSegResHdr Htp.Proof.PSegResGen Htp.Proof.PSegResRun Htp.Proof.PSegResReq Htp.Proof.PSegResThm.
+Theorem C03_response_chunking : forall cb g rq r (cuts : list (list bytes)) (body : bytes) (chunks : list bytes),
+  wr_all_ok cb -> g_allow_space_uri g = false -> wr_request_ok rq = true ->
+  sr_response_ok r = true -> sr_cuts_ok r cuts = true -> sr_framed cb g rq r cuts body = true -> sr_fits g r cuts = true ->
+  Forall (fun x => x <> []) chunks -> concat chunks = sr_wire r cuts body ->
+  sr_f1_free body (negb (sr_is_nil (sr_lines r cuts))) chunks = true ->
+  c03_obs cb g (OpOpen :: OpReqData (wr_request_wire rq) :: map OpResData chunks) =
+  c03_obs cb g [OpOpen; OpReqData (wr_request_wire rq); OpResData (sr_wire r cuts body)].
+Proof. rewrite c03_obs_is_sg_obs. exact sr_response_chunking_obs. Qed.
+Print Assumptions C03_response_chunking.
